@@ -2,7 +2,7 @@
    order of their keys (Python compares str by code point; a dict has no two equal keys).  Until now the harness sorted
    the keys before handing a tree to the printer model; here the sorting is part of the model. *)
 From Coq Require Import List ZArith Bool.
-From DF Require Import Base.Str IO.EJson IO.JsonText.
+From DF Require Import Base.Str Base.Value IO.EJson IO.EJsonInst IO.JsonText.
 Import ListNotations.
 Open Scope Z_scope.
 
@@ -27,3 +27,8 @@ Fixpoint jsort (j : json) : json :=
 
 (* the text stream.py writes for a tree *)
 Definition sorted_text (j : json) : str := jprint (jsort j).
+
+(* what a value looks like after stream -> unstream, with the sorting the writer does in between (cf. rt_model) *)
+Definition rt_sorted (v : value) : value :=
+  decode real_keys c_dec_parse c_time_parse c_dt_parse c_date_parse c_dur_parse
+         (jsort (encode real_keys c_dec_str c_time_str c_dt_str c_date_str c_dur_str v)).
